@@ -409,6 +409,10 @@ def script_and_prediction(c, model, upto=None):
         e['hidden'] = conc(rec['agg']['hidden'], model)
         e['count'] = conc(rec['agg']['count'], model)
         e['orders'] = sorted(canon(order_json(L, conc(o, model))) for occ, k, o in rec['post'] if conc(occ, model))
+        if not c.pre and rec.get('after') is not None:
+            st_ = dict(zip(L.structs['PriceLevelStatistics'], rec['after'][c.h.i_stats]))
+            e['stats'] = {f: conc(st_[f], model) for f in ('orders_added', 'orders_removed', 'orders_executed',
+                                                            'quantity_executed', 'value_executed')}
         pred.append(e)
     setup = state_recipe(c, model) if c.pre else []
     script = {'kind': 'level', 'price': conc(c.h.P, model), 'namespace': uuid_str(conc(c.h.ns, model)),
@@ -450,6 +454,10 @@ def compare_native(script, pred, native):
         for k in ('visible', 'hidden', 'count'):
             if s[k] != e[k]:
                 diffs.append('step %d %s: predicted %r native %r' % (i, k, e[k], s[k]))
+        if 'stats' in e:
+            for k in e['stats']:
+                if s['stats'][k] != e['stats'][k]:
+                    diffs.append('step %d stats.%s: predicted %r native %r' % (i, k, e['stats'][k], s['stats'][k]))
         no = sorted(canon(o) for o in s['orders'])
         if no != e['orders']:
             diffs.append('step %d resting orders: predicted %r native %r' % (i, e['orders'], no))
@@ -525,7 +533,7 @@ def solve_cube(cube, prop_fn, solver='z3', timeout=300, cross=None):
                 try:
                     if cube.get('native') is False:
                         raise StopIteration
-                    script, pred = script_and_prediction(c, model, upto=o.get('expect_hang'))
+                    script, pred = script_and_prediction(c, model, upto=o.get('expect_hang') if o.get('expect_hang') is not None else o.get('cut_step'))
                     if o.get('expect_hang') is not None:
                         r['expect_hang'] = o['expect_hang']
                     r['script'] = script
@@ -533,6 +541,10 @@ def solve_cube(cube, prop_fn, solver='z3', timeout=300, cross=None):
                     r['desc'] = describe(script)
                     if 'extra_pred' in o:
                         r['extra'] = o['extra_pred'](c, model)
+                    if 'drain' in o:
+                        r['drain'] = o['drain'](c, model)
+                        if r['drain'].get('within_call') is None:
+                            r['script']['ops'].append({'op': 'match', 'quantity': (1 << 64) - 1, 'taker': uuid_str(TAKER_ID)})
                 except StopIteration:
                     r['desc'] = 'state inside a call (not replayable)'
                 except Exception as e:  # noqa
@@ -642,6 +654,24 @@ def run_hist(run, prop_fn, cubes, timeout=300, cross=None, native=True, known_ke
         diffs = compare_native(r['script'], r['pred'], nat)
         payload = {'property': run.pid, 'obligation': r['name'], 'cube': r['cube'], 'history': r['desc'],
                    'script': r['script'], 'predicted': r['pred'], 'native': nat, 'extra': r.get('extra')}
+        if r.get('drain') and not diffs:
+            # white-box (queue position) violation: confirm through its observable consequence, the maker order
+            # of a draining match appended to the script
+            res = nat.get('results') or []
+            if r['drain'].get('within_call') is not None:
+                # violation at a loop cut inside a call: its observable consequence is the NEXT maker of that call
+                kk = r['script'].get('setup_ops', 0) + r['drain']['within_call']
+                last = res[kk] if len(res) > kk else {}
+                makers = [t['maker'] for t in (last.get('match') or {}).get('transactions', [])][r['drain'].get('skip', 0):]
+            else:
+                last = res[-1] if res else {}
+                makers = [t['maker'] for t in (last.get('match') or {}).get('transactions', [])]
+            exp = r['drain']['expected_first']
+            first = makers[0] if makers else None
+            payload['drain'] = {'expected_first_maker': exp, 'native_maker_sequence': makers}
+            if first == exp:
+                diffs = ['queue-position violation is not observable: the draining match trades %s first as the '
+                         'arrival-order model expects' % exp]
         if r.get('expect_hang') is not None and not diffs:
             res = nat.get('results') or []
             kk = r['script'].get('setup_ops', 0) + r['expect_hang']
